@@ -135,7 +135,7 @@ def points(tier: str) -> List[Dict[str, Any]]:
                     continue
                 pts.append({"cache": st, "timeout": 1000, "arrive": {k: ("never" if k in gone else others) for k in missing},
                             "forced": None, "extra": False, "bye": gone, "bye_together": together})
-    pts += [dict(q, names="sharp") for q in pts[::9]]
+    pts += [dict(q, names="sharp") for q in pts[::9]] + [dict(q, names="selfhost") for q in pts[4::9]]
     # the same lookups through the convenience entry points of Zeroconf and AsyncZeroconf (every 11th point, and every point
     # with a forced question type and nothing cached)
     base = [q for q in pts if not any(k in q for k in ("prior", "bundle", "reuse", "knows_host", "names", "dying_ms"))]
@@ -151,25 +151,31 @@ _SHARP = {"x._a._tcp.local.": "Straße µ ς._a._tcp.local.", "h.local.": "weiß
 _NAMED = ("NAME", "HOSTN", "GOOD", "OLD", "A_EXTRA", "HOST_B", "SRV_B", "A_B", "A_B_OLD", "TXT_B")
 
 
-def _renamed(x: Any) -> Any:
+# ... and with a service whose host name IS its instance name (what a description registered without a host name announces):
+# the address records are then owned by the instance name
+_SELFHOST = {"h.local.": "x._a._tcp.local."}
+_MAPS = {"sharp": _SHARP, "selfhost": _SELFHOST}
+
+
+def _renamed(x: Any, m: Dict[str, str]) -> Any:
     if isinstance(x, str):
-        return _SHARP.get(x, x)
+        return m.get(x, x)
     if isinstance(x, tuple):
-        return tuple(_renamed(v) for v in x)
+        return tuple(_renamed(v, m) for v in x)
     if isinstance(x, list):
-        return [_renamed(v) for v in x]
+        return [_renamed(v, m) for v in x]
     if isinstance(x, dict):
-        return {k: _renamed(v) for k, v in x.items()}
+        return {k: _renamed(v, m) for k, v in x.items()}
     return x
 
 
 def run_point(p: Dict[str, Any], verbose: bool = False) -> Tuple[Optional[Dict[str, Any]], str, int]:
-    if p.get("names") == "sharp":
+    if p.get("names") in _MAPS:
         g = globals()
         saved = {k: g[k] for k in _NAMED}
         try:
             for k in _NAMED:
-                g[k] = _renamed(saved[k])
+                g[k] = _renamed(saved[k], _MAPS[p["names"]])
             return _run_point(p, verbose)
         finally:
             g.update(saved)
